@@ -209,9 +209,9 @@ def main() -> int:
     rep = Report(PROP)
     t = tier()
     sd = seed()
-    n_clean = 140 if t == "quick" else 3000
+    n_clean = 300 if t == "quick" else 3000
     cases = [(i, "clean", sd, (1, 2)[i % 2], ()) for i in range(n_clean)]
-    cases += [(i, "poly", sd, 1, ()) for i in range(40 if t == "quick" else 600)]
+    cases += [(i, "poly", sd, 1, ()) for i in range(100 if t == "quick" else 800)]
     if t == "thorough":
         for hz in GENHZ_TO_FINDING:
             cases += [(i, "hazard", sd, 2, (hz,)) for i in range(200)]
